@@ -319,7 +319,7 @@ func (w *world) vote(nonce uint64, mk func(bridger string) types.ExternalClaim) 
 			w.out.Count("env:claim:vb-reject")
 			continue
 		}
-		if w.txmode {
+		if w.txmode && !w.claimTxClosed {
 			if by := w.signerOf(o.BridgerAddress); by != nil {
 				if i := w.queue(by, msg); i >= 0 {
 					w.claimTx = append(w.claimTx, i)
@@ -408,7 +408,7 @@ func (w *world) opEvent(what string) {
 			return &types.MsgOracleSetUpdatedClaim{EventNonce: nonce, BlockHeight: h, OracleSetNonce: n, Members: members, BridgerAddress: b, ChainName: w.chain}
 		}
 	}
-	if w.txmode {
+	if w.txmode && !w.claimTxClosed {
 		w.opEventTx(what, nonce, mk, parked, executedBatch, bBefore, cBefore, obsBefore)
 		return
 	}
@@ -473,14 +473,26 @@ func (w *world) opEventTx(what string, nonce uint64, mk func(bridger string) typ
 	idx := w.claimTx
 	observed := false
 	w.txBlock(func() {
+		undeliverable := 0
 		for _, i := range idx {
 			r := w.txKind(i)
 			w.out.Count("env:tx:claim:" + short(r))
+			if strings.Contains(r, "expected claim type") {
+				// this snapshot: MsgClaim has no UnpackInterfaces, the decoded transaction carries an unresolved Any and ValidateBasic
+				// rejects it (DESIGN §12) — no claim is deliverable as a transaction; the world falls back to the message router
+				undeliverable++
+			} else if r != "ok" && !strings.HasPrefix(r, "panic") {
+				w.out.Count("env:tx:claim-error:" + clip(r, 90))
+			}
 			if strings.HasPrefix(r, "panic") {
 				// a panic inside a message handler: recovered by baseapp's runTx, the transaction fails, the block goes on
 				w.out.Count("env:tx:claim-panic-recovered:" + what)
 				w.out.Nontrivial("env:tx:claim-panic-recovered:" + what)
 			}
+		}
+		if undeliverable > 0 && undeliverable == len(idx) {
+			w.claimTxClosed = true
+			w.out.Count("env:tx:claim-undeliverable-as-transaction(no UnpackInterfaces):fallback-to-router")
 		}
 		observed = w.k.GetLastObservedEventNonce(w.ctx()) == nonce
 		w.out.Count(fmt.Sprintf("env:tx:event:%s:observed=%v", what, observed))
@@ -595,4 +607,11 @@ func (w *world) envSequence(length int) {
 			w.opBlock([]int64{5, w.unb + 1, w.unb}[rng.Intn(3)])
 		}
 	}
+}
+
+func clip(s string, n int) string {
+	if len(s) > n {
+		return s[:n]
+	}
+	return s
 }
